@@ -508,6 +508,8 @@ def _calc_reshape_args(shape, newshape, subsizes):
             s = 1
             i += 1
             while di < dj:
+                if i == ndim_old:
+                    raise ValueError("Shape mismatch for fuse.")
                 di *= shape[i]
                 term.append(label)
                 i += 1
@@ -528,6 +530,8 @@ def _calc_reshape_args(shape, newshape, subsizes):
         any_singleton = True
         term.append("s")
     for j in range(j, ndim_new):
+        if newshape[j] != 1:
+            raise ValueError("Shape mismatch.")
         axs_expand.append(k)
 
     # first we handle unfusings
